@@ -39,6 +39,7 @@ def proof_gate_gen(prop):
     """core.proof_gate for this family, with the targeted base build"""
     import re
     res = dict(ok=False, obligations=0, discharged=0, theorems=[], axioms=[], failed=None, log='')
+    core.GATED.append((FAM, prop))
     vfile = os.path.join(FAM.coq, 'Properties', prop + '.v')
     src = open(vfile, encoding='utf-8').read()
     thms = re.findall(r'^(?:Theorem|Corollary)\s+(\w+)', src, flags=re.M)
